@@ -67,7 +67,7 @@ def main():
         print(json.dumps({k: meta[k] for k in ("pinned_suite_passes_with_patch", "demo_exit_with_patch", "demo_exit_without_patch",
                                                  "caught_by", "check_results")}, indent=1))
         if valid or "--keep" in sys.argv:
-            dst = os.path.join(VERIF, "seeded", "%s-%s" % (prop, n))
+            dst = os.path.join(VERIF, "seeded", "%s-%s%s" % (prop, os.environ.get("SEEDED_PREFIX", ""), n))
             os.makedirs(dst, exist_ok=True)
             open(os.path.join(dst, "patch.diff"), "w").write(patch)
             shutil.copy(demo, os.path.join(dst, "demo.py"))
